@@ -183,6 +183,15 @@ def missing_targets(sn, targets, target_dirs) -> tuple[int, int]:
     return mt, md
 
 
+def invalid_targets_at_end(sn, targets) -> list[str]:
+    """Requested exact targets that are, in the final database, attached files nobody builds: static files
+    (CONFIRMED / MISSING / UNCONFIRMED) or volatile outputs.  Decided on the database, not on what was reported."""
+    bad_states = {s.value for s, r in FILE_ROLE_BY_STATE.items() if r == FileRole.STATIC} | {FileState.VOLATILE.value}
+    file_by_label = {n[1]: i for i, n in sn.nodes.items() if n[0] == "file" and not n[3] and i in sn.files}
+    return sorted(str(t) for t in targets if file_by_label.get(str(t)) is not None
+                  and sn.files[file_by_label[str(t)]][0] in bad_states)
+
+
 def rc_model_line(sn, thr, draining, mt, md, gw, ge) -> str:
     rows = []
     for i, n in sorted(sn.nodes.items()):
@@ -967,6 +976,12 @@ def examine_build(ctx, sim, result, opts, where, lines, expect, do_oracle):
 
     if result.status != "done" or result.returncode is None:
         ctx.stats.count(f"sim-status-{result.status}")
+        if result.status == "error" and do_oracle:
+            # the director raised: the process would exit with a traceback and status 1 (INTERNAL), which says
+            # nothing true about the build
+            last = (result.error or "").strip().splitlines()[-1:] or [""]
+            ctx.finding(Finding(PID, "director-error" + (":" + where["directed"] if where.get("directed") else ""),
+                                f"the simulated director raised: {last[0][:200]}", where))
         if result.status == "hang" and do_oracle:
             ctx.finding(Finding(PID, f"build-{result.status}", f"the simulated director ended with {result.status}: "
                                 f"{(result.error or '')[-300:]}", where))
@@ -989,6 +1004,13 @@ def examine_build(ctx, sim, result, opts, where, lines, expect, do_oracle):
         finally:
             con.close()
         mt, md = missing_targets(sn, targets, tdirs)
+        bad_targets = invalid_targets_at_end(sn, targets)
+        if do_oracle and bad_targets and not (rc & ReturnCode.FAILED.value):
+            mech = ":declaring-plan-skipped" if where.get("directed") == "invalid-target-skipped-plan" else ""
+            ctx.finding(Finding(PID, "invalid-target-not-failed" + mech,
+                                f"the requested target(s) {bad_targets} are static or volatile files (invalid targets) "
+                                f"but the exit status {rc} has no FAILED bit",
+                                {"targets": bad_targets, "returncode": rc, **where}))
         needs = koracles.implied_need_spec(sn)
         ctx.stats.case(("sim-rc", rc, tuple(m.split(":")[0] for m in msgs), tuple(where.get("features", ()))),
                        nontrivial=rc != 0)
@@ -1041,6 +1063,63 @@ def examine_build(ctx, sim, result, opts, where, lines, expect, do_oracle):
         asyncio.run(analyse())
     finally:
         shutil.rmtree(tmp, ignore_errors=True)
+
+
+def invalid_target_skipped_plan_case(ctx, do_oracle: bool):
+    """A static file declared by a nested plan is requested as a target right after the top-level plan was edited:
+    the startup check is skipped (a creator is pending) and the nested plan is skipped (unchanged), so nobody
+    declares the file again.  The status must still say FAILED, as it does when the same command is repeated."""
+    from simdirector import A, Project, SimDirector, plan_file
+
+    nested = [A.static("legacy/table.csv")]
+    plan = [A.static("legacy/plan.py"), A.step("./legacy/plan.py", inp=["legacy/plan.py"], plan=True)]
+    project = Project(scripts={"./plan.py": plan, "./legacy/plan.py": nested},
+                      files={"legacy/table.csv": "1,2\n", "legacy/plan.py": plan_file(nested, note="legacy"),
+                             "plan.py": plan_file(plan, note="top")})
+    lines, expect = [], []
+    where = {"source": "simulated-build", "directed": "invalid-target-skipped-plan", "features": ["invalid-target-skipped-plan"]}
+    with SimDirector(copy.deepcopy(project), seed=1) as sim:
+        res = sim.build(njob=1)
+        if res.status != "done":
+            return
+        sim.apply([("script", "./plan.py", plan, ""), ("write", "plan.py", plan_file(plan, note="top, edited"))])
+        opts = {"njob": 1, "targets": ["legacy/table.csv"]}
+        for phase in (1, 2):
+            res = sim.build(**opts)
+            ctx.stats.count("sim-directed-invalid-target-skipped-plan")
+            examine_build(ctx, sim, res, opts, {**where, "phase": phase, "options": opts}, lines, expect, do_oracle)
+            if res.status != "done":
+                break
+        if sim.session is not None:
+            with contextlib.suppress(Exception):
+                sim.shutdown()
+
+
+def boot_target_case(ctx, do_oracle: bool):
+    """`stepup build plan.py` (the boot script itself as the target), on a fresh project and on a resumed one:
+    an invalid target, FAILED alone, never an internal error."""
+    from simdirector import A, Project, SimDirector, plan_file
+
+    plan = [A.static("src/a.txt"), A.step("copy a", inp=["src/a.txt"], out=["out/a.txt"])]
+    project = Project(scripts={"./plan.py": plan, "copy a": [A.read_declared(), A.write_declared()]},
+                      files={"src/a.txt": "a\n", "plan.py": plan_file(plan, note="boot")})
+    lines, expect = [], []
+    for first_build in (False, True):
+        where = {"source": "simulated-build", "directed": "boot-script-as-target", "features": ["boot-script-as-target"],
+                 "resumed": first_build}
+        with SimDirector(copy.deepcopy(project), seed=2) as sim:
+            if first_build and sim.build(njob=1).status != "done":
+                continue
+            opts = {"njob": 1, "targets": ["plan.py"]}
+            res = sim.build(**opts)
+            ctx.stats.count("sim-directed-boot-script-as-target")
+            examine_build(ctx, sim, res, opts, {**where, "options": opts}, lines, expect, do_oracle)
+            if do_oracle and res.status == "done" and res.returncode is not None and res.returncode.value != ReturnCode.FAILED.value:
+                ctx.finding(Finding(PID, "invalid-target-status:boot-script-as-target",
+                                    f"`stepup build plan.py` ends with {res.returncode!r}, expected FAILED alone", where))
+            if sim.session is not None:
+                with contextlib.suppress(Exception):
+                    sim.shutdown()
 
 
 def sim_leftovers(ctx, ncase: int, salt: str, do_model: bool, do_oracle: bool, only: int | None = None):
@@ -1121,6 +1200,8 @@ async def correspond(ctx):
 async def search(ctx):
     await kernel_leftovers(ctx, ctx.budget(40, 900), 54, "c19-oracle-kernel", False, True)
     await asyncio.to_thread(sim_leftovers, ctx, ctx.budget(70, 1500), "c19-oracle-sim", False, True)
+    await asyncio.to_thread(invalid_target_skipped_plan_case, ctx, True)
+    await asyncio.to_thread(boot_target_case, ctx, True)
 
 
 async def replay(ctx, detail):
